@@ -133,8 +133,12 @@ func startPipeline() {
 		panic(err)
 	}
 
-	// Pipe in the reactor the input seeds if any
+	// Pipe in the reactor the input seeds if any.
+	// This is done from a goroutine: inserting blocks while all the reactor's tokens are in use (more seeds
+	// than workers), and the caller must be able to go on and watch for signals meanwhile, else a stop
+	// request received during that time kills the process without closing the WARC files.
 	if len(config.Get().InputSeeds) > 0 {
+		items := make([]*models.Item, 0, len(config.Get().InputSeeds))
 		for _, seed := range config.Get().InputSeeds {
 			parsedURL := &models.URL{Raw: seed}
 			err := parsedURL.Parse()
@@ -144,13 +148,24 @@ func startPipeline() {
 
 			item := models.NewItem(uuid.New().String(), parsedURL, "")
 			item.SetSource(models.ItemSourceQueue)
-
-			err = reactor.ReceiveInsert(item)
-			if err != nil {
-				logger.Error("unable to insert seed", "err", err.Error())
-				panic(err)
-			}
+			items = append(items, item)
 		}
+
+		go func() {
+			for _, item := range items {
+				err := reactor.ReceiveInsert(item)
+				if err != nil {
+					if err == reactor.ErrReactorFrozen || err == reactor.ErrReactorShuttingDown || err == reactor.ErrReactorNotInitialized {
+						// The crawl is being stopped
+						logger.Info("stopping before all the input seeds were inserted", "err", err.Error())
+						return
+					}
+
+					logger.Error("unable to insert seed", "err", err.Error())
+					panic(err)
+				}
+			}
+		}()
 	}
 }
 
